@@ -86,9 +86,33 @@ char* verif_strtok(char* s, const char* delim)
    return gp_buf + g_sc_e;
 }
 
+char nondet_char(void);
 #define BIG (1 << 29)
 #define N_SECTIONS 9                       /* NAME .. ENDATA; the enum text is conformance-checked */
 
+/* ---- contracts of the two static helpers (proved on the real bodies by instances clear_from / patch_field, used at
+ * the call sites by instance readLine).  A contract that is used for call replacement cannot have ghost-index
+ * preconditions (the caller would have to establish them), so these state memory safety, the frame and the
+ * terminator only - which is all readLine's proof needs. */
+void clear_from(char* buf, int pos)
+__CPROVER_requires(0 <= pos && pos <= 80 && __CPROVER_is_fresh(buf, 81))
+__CPROVER_assigns(__CPROVER_object_upto(buf, 81))                                /* writes buf[pos..80] only inside buf[0..80] */
+__CPROVER_ensures(buf[80] == '\0')                                              /* the line is cut/padded to 80 columns */
+__CPROVER_ensures(pos < 80 ==> buf[79] == V_BLANK)
+;
+void patch_field(char* buf, int beg, int end)
+__CPROVER_requires(0 <= beg && beg <= end && end <= 47 && __CPROVER_is_fresh(buf, 48))
+__CPROVER_assigns(__CPROVER_object_upto(buf, 48))                                /* writes inside buf[0..47] only */
+__CPROVER_ensures(1)
+;
+#if defined(INST_clear_from) && !defined(INST_readLine)
+void h_clear_from(void) { char* buf; int pos; clear_from(buf, pos); CANARY(); }
+#endif
+#if defined(INST_patch_field) && !defined(INST_readLine)
+void h_patch_field(void) { char* buf; int beg, end; patch_field(buf, beg, end); CANARY(); }
+#endif
+
+#ifdef INST_readLine
 int w_readline(int section, int lineno, int is_integer, int is_new_format, int* off, int* end_i, int* end_prev, char* c0, int* lineno_out)
 __CPROVER_requires(0 <= section && section <= N_SECTIONS - 1)
 __CPROVER_requires(0 <= lineno && lineno <= BIG && g_lineno0 == lineno)
@@ -121,3 +145,4 @@ void h_readline(void)
    w_readline(section, lineno, is_integer, is_new_format, off, end_i, end_prev, c0, lineno_out);
    CANARY();
 }
+#endif
